@@ -840,3 +840,25 @@ impl<E: Effect, R: CommandReceiver<E>, S: EventSender<E>> Worker<E, R, S> {
         Ok(())
     }
 }
+
+/// Verification hooks (compiled only with `--cfg quiver_verif`): read-only views for an external
+/// harness that drives a worker single-threaded under a chosen schedule.
+#[cfg(quiver_verif)]
+impl<E: Effect, R: CommandReceiver<E>, S: EventSender<E>> Worker<E, R, S> {
+    pub fn verif_executor(&self) -> &Executor<E> {
+        &self.executor
+    }
+
+    /// (awaited targets, awaiters per target), both sorted.
+    pub fn verif_dump(&self) -> (Vec<ProcessId>, Vec<(ProcessId, Vec<ProcessId>)>) {
+        let mut awaited: Vec<ProcessId> = self.awaited.iter().copied().collect();
+        awaited.sort_unstable();
+        let mut per_target: Vec<(ProcessId, Vec<ProcessId>)> = self
+            .awaiters_for_target
+            .iter()
+            .map(|(t, a)| (*t, a.clone()))
+            .collect();
+        per_target.sort();
+        (awaited, per_target)
+    }
+}
